@@ -1,6 +1,6 @@
 (* C19 — property theorems only. *)
 From Coq Require Import List String ZArith Bool Ascii.
-From C19 Require Import Model Spec Lex LexProofs Proofs Session SessionSpec SessionProofs Classes ClassesProofs.
+From C19 Require Import Model Spec Lex LexProofs Proofs Session SessionSpec SessionProofs Classes ClassesProofs ClassOrder.
 Import ListNotations.
 
 (* (1) LOAD FORMS.  For EVERY value of the modelled universe inside the guard -- numbers, strings, characters, symbols,
@@ -109,13 +109,23 @@ Theorem C19_flavor_session_nonvacuous :
 Proof. exact ex_flavor_history_ok. Qed.
 Print Assumptions C19_flavor_session_nonvacuous.
 
-(* (3d) CLASSES in a snapshot. The checker run on the class order of every snapshot is sound, for every hierarchy and
-   every order: an accepted order has every class after every user class it inherits from, no class twice and exactly
-   the user classes. The writer of the model (name order, superclasses first) meets this specification on the
-   enumerated block of 42 hierarchies (every assignment of three names to child(parent) + unrelated, to a chain, to a
-   class with two parents, and of four names to a diamond), evaluated by the kernel. PARTIAL: the full statement -- the
-   writer meets the specification for EVERY acyclic hierarchy -- is evaluated on every generated hierarchy per run
-   (self-check code 3), not proved. *)
+(* (3d) CLASSES in a snapshot. For EVERY acyclic hierarchy of user classes the writer of the model (name order, a visited
+   set, the classes a class inherits from first; fuel = number of classes + 1) writes every user class exactly once and
+   after every user class it inherits from (order_ok). Acyclic is stated by a rank function: every direct superclass
+   that is a user class has a smaller rank than the class, and no rank exceeds the number of classes (the depth of a
+   class is such a function for every finite acyclic hierarchy; slip's defclass accepts a superclass that is defined
+   later, so "defined earlier" would be too narrow). Under this hypothesis the fuel never runs out: a nested call is
+   made on a class of smaller rank. The second form takes the rank as an association list and checks it (decidable).
+   The checker itself is sound for every hierarchy and every order. *)
+Theorem C19_class_order_ok : forall (h : hier) (rank : string -> nat),
+  (forall c sups s, In (c, sups) h -> In s sups -> In s (map fst h) -> rank s < rank c) ->
+  (forall c, In c (map fst h) -> rank c <= List.length h) ->
+  order_ok h (class_order h) = true.
+Proof. exact class_order_ok. Qed.
+Print Assumptions C19_class_order_ok.
+Theorem C19_class_order_ok_decidable : forall h r, acyclic_by r h = true -> order_ok h (class_order h) = true.
+Proof. exact class_order_ok_by. Qed.
+Print Assumptions C19_class_order_ok_decidable.
 Theorem C19_class_order_checker_sound : forall h order seen, supers_before h seen order = true ->
   forall l1 c l2, order = l1 ++ c :: l2 ->
   forall a, In a (ancestors (List.length h) h c) -> In a (map fst h) -> In a (seen ++ l1).
@@ -125,9 +135,12 @@ Theorem C19_class_order_checker_complete_set : forall h order, order_ok h order 
   NoDup order /\ (forall c, In c order <-> In c (map fst h)).
 Proof. exact order_ok_sound. Qed.
 Print Assumptions C19_class_order_checker_complete_set.
-Theorem C19_class_order_block_partial : List.length block = 42 /\ forallb (fun h => order_ok h (class_order h)) block = true.
-Proof. exact class_order_block. Qed.
-Print Assumptions C19_class_order_block_partial.
+(* non-vacuity: the 42 hierarchies of the enumerated block have the depth as a rank and are instances of the theorem; a
+   diamond whose superclass is defined after the class that names it *)
+Theorem C19_class_order_block : List.length block = 42 /\ forallb (fun h => acyclic_by (depth_rank h) h) block = true
+  /\ forallb (fun h => order_ok h (class_order h)) block = true.
+Proof. exact (conj (proj1 class_order_block) (conj block_ranked block_ok)). Qed.
+Print Assumptions C19_class_order_block.
 
 (* (4) Outside the guards the faithful model violates the specification: the known finding that has a model. *)
 Theorem C19_rank_zero_refuted : reload (Arr [] [Fix 7] T true) = Err EType /\ loadable (Arr [] [Fix 7] T true) = false.
